@@ -555,6 +555,96 @@ func checkListingPipelines(c *Ctx) {
 			b := p.BodyOf(f)
 			bad, nS := b.mustPassBeforeSuccess(callTo("sort.Sort", "sort.Stable", "sort.Slice", "sort.SliceStable"))
 			c.check(nS > 0 && len(bad) == 0, "siblings.batch-sorted", lp.batchFn, p.Pos(f.Decl.Pos()), "the batch is sorted before every success return", shortCallee(lp.batchFn)+" can return a batch without sorting it: workers complete in any order, so the listing order is arbitrary")
+			// the collector: `for ev := range results { if ev.err != nil && werr == nil { werr = ev.err; …; break }; out = append(out, ev.x) }`
+			{
+				info := f.Info()
+				okCollector := ""
+				nLoops := 0
+				ast.Inspect(f.Decl.Body, func(n ast.Node) bool {
+					rs, ok := n.(*ast.RangeStmt)
+					if !ok {
+						return true
+					}
+					if _, isChan := info.TypeOf(rs.X).Underlying().(*types.Chan); !isChan {
+						return true
+					}
+					kid, _ := rs.Key.(*ast.Ident)
+					if kid == nil || kid.Name == "_" {
+						return true
+					}
+					ev := info.Defs[kid]
+					nLoops++
+					isEvErr := func(e ast.Expr) bool {
+						sel, ok := ast.Unparen(e).(*ast.SelectorExpr)
+						if !ok {
+							return false
+						}
+						id, ok := ast.Unparen(sel.X).(*ast.Ident)
+						return ok && info.Uses[id] == ev && isErrorType(info.TypeOf(sel))
+					}
+					isNil := func(e ast.Expr) bool {
+						id, ok := ast.Unparen(e).(*ast.Ident)
+						return ok && id.Name == "nil"
+					}
+					foundIf, foundAppend := false, false
+					for _, st := range rs.Body.List {
+						switch x := st.(type) {
+						case *ast.IfStmt:
+							evTest, okShape := false, true
+							for _, cj := range conjuncts(x.Cond) {
+								be, ok := ast.Unparen(cj).(*ast.BinaryExpr)
+								switch {
+								case ok && be.Op == token.NEQ && isEvErr(be.X) && isNil(be.Y):
+									evTest = true
+								case ok && be.Op == token.EQL && isNil(be.Y) && isErrorType(info.TypeOf(be.X)) && !isEvErr(be.X):
+								default:
+									okShape = false
+								}
+							}
+							if !evTest {
+								continue
+							}
+							foundIf = true
+							if !okShape {
+								okCollector = "the error test is `" + exprString(x.Cond) + "`"
+							}
+							keeps := false
+							for _, s2 := range x.Body.List {
+								if as, ok := s2.(*ast.AssignStmt); ok && len(as.Rhs) == 1 && isEvErr(as.Rhs[0]) {
+									keeps = true
+								}
+							}
+							if !keeps {
+								okCollector = "the worker's error is not kept"
+							}
+							if len(x.Body.List) == 0 {
+								okCollector = "empty error branch"
+							} else if br, ok := x.Body.List[len(x.Body.List)-1].(*ast.BranchStmt); !ok || br.Tok != token.BREAK {
+								okCollector = "the error branch does not leave the loop"
+							}
+						case *ast.AssignStmt:
+							if len(x.Rhs) == 1 {
+								if call, ok := ast.Unparen(x.Rhs[0]).(*ast.CallExpr); ok && calleeID(info, call) == "builtin.append" && foundIf {
+									for _, a := range call.Args[1:] {
+										if usesObj(info, a, ev) {
+											foundAppend = true
+										}
+									}
+								}
+							}
+						}
+					}
+					if !foundIf {
+						okCollector = "no `event.err != nil` test in the collecting loop"
+					} else if !foundAppend && okCollector == "" {
+						okCollector = "results are not appended after the error test"
+					}
+					return true
+				})
+				c.check(nLoops == 1 && okCollector == "", "siblings.batch-collector", lp.batchFn, p.Pos(f.Decl.Pos()),
+					"the collector keeps the first worker error, leaves the loop on it, and appends every other result",
+					shortCallee(lp.batchFn)+": "+okCollector+" ("+itoa(nLoops)+" collecting loop): a failed descriptor read is taken for a result (or results are dropped) and the batch is returned as complete")
+			}
 			// sort argument is the returned slice
 			okArg := false
 			ast.Inspect(f.Decl.Body, func(n ast.Node) bool {
